@@ -353,7 +353,7 @@ def st_cases(rng, tier):
 #   N m  ctx(delay k (ref 0))   m calls: equilibrium only, is_exhausted false before and after every call, no pull of the
 #                               base (event log, leaf counters); the delay sits under 0-2 random adaptor levels
 #   N 2  ref 0                  the base, handed back, yields its FIRST frames
-#   N m  delay k (iter of 0-2 frames)      a delay over an (almost) empty source is live
+#   N m  delay k (empty source), delay k (iter of 1-2 frames)     a delay over an exhausted / short source is live
 #   N m  delay k (delay k' (ref 0)) / small delays around it, a clone of the stack after j calls (NC),
 #        the statically typed forms leaf.delay(k).outer(p) / leaf.inner(p).delay(k) / Equilibrium|Gen|GenMut.delay(k)
 #   N 3  ref 0                  still where it was left
@@ -379,7 +379,8 @@ def count_cases(rng, tier):
                 m = r.range(3, 5)
                 ops = [["N", m, S.count_ctx(g, ["delay", k, ["ref", 0]], r.choice([0, 1, 1, 2]))],
                        ["N", 2, ["ref", 0]],
-                       ["N", r.range(2, 4), ["delay", k, ["iter", g.fresh(), [g.frame() for _ in range(r.choice([0, 0, 1, 2]))]]]],
+                       ["N", r.range(2, 3), ["delay", k, r.choice([["iter", g.fresh(), []], ["samp", g.fresh(), [g.sample() for _ in range(S.FMTS[fm]["n"] - 1)]]])]],
+                       ["N", 2, ["delay", k, ["iter", g.fresh(), [g.frame() for _ in range(r.choice([1, 2]))]]]],
                        ["N", 3, r.choice([["delay", k, ["delay", other, ["ref", 0]]],
                                           ["delay", r.range(1, 2), ["delay", k, ["ref", 0]]],
                                           ["delay", k, ["delay", r.range(0, 2), ["ref", 0]]]])],
